@@ -14,6 +14,7 @@ import (
 	eth2api "github.com/attestantio/go-eth2-client/api"
 	eth2v1 "github.com/attestantio/go-eth2-client/api/v1"
 	eth2spec "github.com/attestantio/go-eth2-client/spec"
+	"github.com/attestantio/go-eth2-client/spec/electra"
 	eth2p0 "github.com/attestantio/go-eth2-client/spec/phase0"
 
 	"github.com/obolnetwork/charon/app/eth2wrap"
@@ -232,31 +233,121 @@ func payAttestationData(uid uint64) *eth2api.Response[*eth2p0.AttestationData] {
 	return &eth2api.Response[*eth2p0.AttestationData]{Data: attData(uid), Metadata: meta(uid)}
 }
 
-func payNodeSyncing(uid uint64, nok bool) *eth2api.Response[*eth2v1.SyncState] {
-	st := &eth2v1.SyncState{HeadSlot: eth2p0.Slot(uid), SyncDistance: 0, IsSyncing: false}
+// mix derives the per-node answer variant from the node uid (splitmix64): the fields a success
+// predicate could look at vary from node to node, reproducibly.
+func mix(uid uint64) uint64 {
+	z := uid + 0x9e3779b97f4a7c15
+	z = (z ^ (z >> 30)) * 0xbf58476d1ce4e5b9
+	z = (z ^ (z >> 27)) * 0x94d049bb133111eb
+
+	return z ^ (z >> 31)
+}
+
+// syncVariant: is_syncing is the class (ok: false, not-ok: true); is_optimistic, sync_distance and
+// head_slot vary independently of it.
+func syncVariant(uid uint64, nok bool) eth2v1.SyncState {
+	v := mix(uid)
+	st := eth2v1.SyncState{IsSyncing: nok, IsOptimistic: v&1 == 1}
 	if nok {
-		st.SyncDistance = 1000
-		st.IsSyncing = true
+		st.SyncDistance = []eth2p0.Slot{0, 1, 1000, 250000}[(v>>1)%4]
+	} else {
+		st.SyncDistance = []eth2p0.Slot{0, 0, 1, 37}[(v>>1)%4]
+	}
+	if (v>>3)%4 == 0 {
+		st.HeadSlot = 0
+	} else {
+		st.HeadSlot = eth2p0.Slot(uid)
 	}
 
-	return &eth2api.Response[*eth2v1.SyncState]{Data: st, Metadata: meta(uid)}
+	return st
+}
+
+func describeSync(uid uint64, nok bool) string {
+	st := syncVariant(uid, nok)
+	dist := "0"
+	switch {
+	case st.SyncDistance == 1:
+		dist = "1"
+	case st.SyncDistance > 1:
+		dist = ">1"
+	}
+
+	return fmt.Sprintf("is_syncing=%v is_optimistic=%v sync_distance=%s head_slot_zero=%v", st.IsSyncing, st.IsOptimistic, dist, st.HeadSlot == 0)
+}
+
+func payNodeSyncing(uid uint64, nok bool) *eth2api.Response[*eth2v1.SyncState] {
+	st := syncVariant(uid, nok)
+
+	return &eth2api.Response[*eth2v1.SyncState]{Data: &st, Metadata: meta(uid)}
+}
+
+var aggVersions = []eth2spec.DataVersion{eth2spec.DataVersionPhase0, eth2spec.DataVersionAltair, eth2spec.DataVersionBellatrix, eth2spec.DataVersionCapella, eth2spec.DataVersionDeneb, eth2spec.DataVersionElectra}
+
+// aggVariant: a not-ok answer has no aggregate (Data nil); an ok answer carries one, of any fork
+// version, with or without set aggregation bits, with or without validator index.
+func aggVariant(uid uint64) (version eth2spec.DataVersion, emptyBits bool, withIndex bool) {
+	v := mix(uid)
+
+	return aggVersions[v%uint64(len(aggVersions))], (v>>8)&1 == 1, (v>>9)&1 == 1
+}
+
+func describeAgg(uid uint64, nok bool) string {
+	if nok {
+		return "aggregate=nil"
+	}
+	ver, empty, idx := aggVariant(uid)
+
+	return fmt.Sprintf("aggregate version=%s aggregation_bits_empty=%v validator_index=%v", ver, empty, idx)
+}
+
+func nodeSig(uid uint64) (sig eth2p0.BLSSignature) {
+	for i := range sig {
+		sig[i] = byte(uid>>(8*(uint(i)%8))) ^ byte(i*3)
+	}
+
+	return sig
 }
 
 func payAggregate(uid uint64, nok bool) *eth2api.Response[*eth2spec.VersionedAttestation] {
 	if nok {
 		return &eth2api.Response[*eth2spec.VersionedAttestation]{Data: nil, Metadata: meta(uid)}
 	}
-	var sig eth2p0.BLSSignature
-	for i := range sig {
-		sig[i] = byte(uid>>(8*(uint(i)%8))) ^ byte(i*3)
+	ver, empty, withIdx := aggVariant(uid)
+	bits := []byte{byte(uid) | 1, 0x01}
+	if empty {
+		bits = []byte{0x00, 0x01}
+	}
+	va := &eth2spec.VersionedAttestation{Version: ver}
+	if withIdx {
+		idx := eth2p0.ValidatorIndex(uid % 1000)
+		va.ValidatorIndex = &idx
+	}
+	att := &eth2p0.Attestation{AggregationBits: bits, Data: attData(uid), Signature: nodeSig(uid)}
+	switch ver {
+	case eth2spec.DataVersionPhase0:
+		va.Phase0 = att
+	case eth2spec.DataVersionAltair:
+		va.Altair = att
+	case eth2spec.DataVersionBellatrix:
+		va.Bellatrix = att
+	case eth2spec.DataVersionCapella:
+		va.Capella = att
+	case eth2spec.DataVersionDeneb:
+		va.Deneb = att
+	default:
+		cb := make([]byte, 8)
+		cb[0] = 1 << (uid % 8)
+		va.Electra = &electra.Attestation{AggregationBits: bits, Data: attData(uid), Signature: nodeSig(uid), CommitteeBits: cb}
 	}
 
-	return &eth2api.Response[*eth2spec.VersionedAttestation]{
-		Data: &eth2spec.VersionedAttestation{
-			Version: eth2spec.DataVersionDeneb,
-			Deneb:   &eth2p0.Attestation{AggregationBits: []byte{byte(uid), 0x01}, Data: attData(uid), Signature: sig},
-		},
-		Metadata: meta(uid),
+	return &eth2api.Response[*eth2spec.VersionedAttestation]{Data: va, Metadata: meta(uid)}
+}
+
+// submittedAttestation is the (fixed) attestation the submit-style calls send.
+func submittedAttestation() *eth2spec.VersionedAttestation {
+	return &eth2spec.VersionedAttestation{
+		Version: eth2spec.DataVersionDeneb,
+		Deneb:   &eth2p0.Attestation{AggregationBits: []byte{0x63, 0x01}, Data: attData(99), Signature: nodeSig(99)},
 	}
 }
 
@@ -270,6 +361,7 @@ type method struct {
 	HasNOK   bool
 	call     func(ctx context.Context, cl eth2wrap.Client) (any, error)
 	expect   func(uid uint64, nok bool) any
+	describe func(uid uint64, nok bool) string // methods with their own success predicate: the fields of this node's answer
 	// cell-dependent variants (Proxy: the request and the expected answer depend on the cell)
 	callCell   func(ctx context.Context, cl eth2wrap.Client, c *cellRun) (any, error)
 	expectCell func(c *cellRun, n *node) any
@@ -306,7 +398,8 @@ var methods = []*method{
 			r, err := cl.NodeSyncing(ctx, &eth2api.NodeSyncingOpts{})
 			return r, err
 		},
-		expect: func(uid uint64, nok bool) any { return payNodeSyncing(uid, nok) },
+		expect:   func(uid uint64, nok bool) any { return payNodeSyncing(uid, nok) },
+		describe: describeSync,
 	},
 	{
 		Name: "AggregateAttestation", Style: "provide", HasNOK: true,
@@ -314,12 +407,13 @@ var methods = []*method{
 			r, err := cl.AggregateAttestation(ctx, &eth2api.AggregateAttestationOpts{Slot: 7, AttestationDataRoot: root(7, 9), CommitteeIndex: 2})
 			return r, err
 		},
-		expect: func(uid uint64, nok bool) any { return payAggregate(uid, nok) },
+		expect:   func(uid uint64, nok bool) any { return payAggregate(uid, nok) },
+		describe: describeAgg,
 	},
 	{
 		Name: "SubmitAttestations", Style: "submit",
 		call: func(ctx context.Context, cl eth2wrap.Client) (any, error) {
-			return nil, cl.SubmitAttestations(ctx, &eth2api.SubmitAttestationsOpts{Attestations: []*eth2spec.VersionedAttestation{payAggregate(99, false).Data}})
+			return nil, cl.SubmitAttestations(ctx, &eth2api.SubmitAttestationsOpts{Attestations: []*eth2spec.VersionedAttestation{submittedAttestation()}})
 		},
 	},
 }
@@ -375,6 +469,16 @@ type node struct {
 
 func (n *node) Name() string    { return fmt.Sprintf("c19-node-%d", n.idx) }
 func (n *node) Address() string { return fmt.Sprintf("http://c19-node-%d.invalid", n.idx) }
+
+// answerDesc describes the predicate-relevant fields of this node's answer (trace / evidence).
+func (n *node) answerDesc() string {
+	m := n.run.meth
+	if m.describe == nil || (n.spec.Class != clOK && n.spec.Class != clNOK) {
+		return ""
+	}
+
+	return " {" + m.describe(n.uid, n.spec.Class == clNOK) + "}"
+}
 
 func (n *node) label() string {
 	if n.fallback {
@@ -443,7 +547,7 @@ func (n *node) serveH(ctx context.Context, pre func(), post func() error) error 
 	} else {
 		c.answered |= n.bit
 	}
-	c.tracef("exit %s scripted(%s)", n.label(), n.spec.Class)
+	c.tracef("exit %s scripted(%s)%s", n.label(), n.spec.Class, n.answerDesc())
 	c.mu.Unlock()
 	c.bump()
 
